@@ -40,7 +40,7 @@ def env():
 
 
 class Harness:
-    def __init__(self, name, desc, weight=1.0, cap_s=None, covers=None, stubs="none", unwind=None, unwindset=None):
+    def __init__(self, name, desc, weight=1.0, cap_s=None, covers=None, stubs="none", unwind=None, unwindset=None, neighbourhood=False):
         self.name = name          # function name inside module `gen`
         self.desc = desc          # dict written to the evidence (what it quantifies over)
         self.weight = weight      # relative cost estimate (for sharding)
@@ -49,6 +49,9 @@ class Harness:
         self.stubs = stubs
         self.unwind = unwind
         self.unwindset = unwindset  # [(regex on cbmc loop names, bound)] loops that need more than the global bound
+        # replay may also try a neighbourhood of the solver's values (only harnesses whose 1-/2-byte inputs are all
+        # small-domain mantissas / selectors, i.e. every byte value is a valid input)
+        self.neighbourhood = neighbourhood
 
 
 class Result:
